@@ -239,7 +239,7 @@ def run_C17(ctx, model_available=True):
         k = rng.choice([2, 3, 4, 5])
         cfg = rc.gen_config(rng, opts={"n_markets": k, "index": True, "equal_shares": rng.random() < 0.2,
                                        "n_normal": rng.choice([3, 6]), "steps": rng.choice([5, 10, 30]),
-                                       "extra_after_index": rng.random() < 0.3})
+                                       "extra_after_index": rng.random() < 0.3, "nested_index": i % 3 == 1})
         for nm in cfg["simulation"]["markets"]:
             if nm.startswith("M") and "outstandingShares" in cfg[nm] and rng.random() < 0.7:
                 cfg[nm]["outstandingShares"] = rng.choice([1, 7, 1000, 25000, 123456])
